@@ -17,7 +17,9 @@ import (
 // non-alphanumerics; drop tokens shorter than two bytes and stop words).
 func refTokens(s string, stop map[string]bool) []string {
 	var b strings.Builder
-	for _, r := range s {
+	// the engine lower-cases first: U+212A, the Kelvin sign, becomes ASCII "k" and survives the
+	// ASCII filter below
+	for _, r := range strings.ToLower(s) {
 		switch {
 		case r >= 'a' && r <= 'z', r >= 'A' && r <= 'Z', r >= '0' && r <= '9', r == '_', r == '-', r == '.',
 			r == ' ', r == '\t', r == '\n', r == '\f', r == '\r':
